@@ -214,6 +214,38 @@ def run_check(prop: str, tier: str, seed: int) -> int:
                   f"{type(e).__name__}: {str(e)[:200]} raised at {where} while the check was feeding an input it considers valid",
                   {"exception": type(e).__name__, "message": str(e)[:300], "where": where,
                    "harness_frame": next((f"{f.filename.split('/verif/')[-1]}:{f.lineno}" for f in reversed(tb) if '/harness/' in f.filename), None)})
+    # 3b. thorough tier: the module's run() is one PASS (exhaustive small grids + seeded random streams).  Passes with fresh derived
+    # seeds are repeated until the thorough budget is used (VERIF_THOROUGH_BUDGET seconds, default 420): every pass draws new
+    # histories / batches / configurations from the same generators, so the exploration deepens with the time it is given.
+    if tier == "thorough" and not (lean["failures"] or rep.broken or [v for v in rep.violations if v["signature"] not in
+                                   {k["signature"] for k in load_findings()[0]}]):
+        try:
+            tb = float(os.environ.get("VERIF_THOROUGH_BUDGET", "420"))
+        except ValueError:
+            tb = 420.0
+        passes, base_seed = 1, rep.seed
+        first_pass_s = max(time.time() - t0, 1.0)
+        while time.time() - t0 + first_pass_s < tb and passes < 200:
+            rep.seed = base_seed + 7919 * passes
+            try:
+                mod.run(rep)
+            except Infra:
+                raise
+            except Exception as e:  # noqa: BLE001
+                import traceback
+                tbk = traceback.extract_tb(e.__traceback__)
+                in_repo = [f for f in tbk if str(common.REPO) in f.filename]
+                if not in_repo:
+                    raise
+                rep.broke("correspondence:real-code-raised-on-harness-input",
+                          f"{type(e).__name__}: {str(e)[:200]} (thorough pass {passes}, derived seed {rep.seed})", {"derived_seed": rep.seed})
+            passes += 1
+            known_now = {k["signature"] for k in load_findings()[0]}
+            if rep.broken or any(v["signature"] not in known_now for v in rep.violations):
+                break
+        rep.seed = base_seed
+        rep.notes.append(f"thorough: {passes} pass(es) of run() with derived seeds base+7919*k within a budget of {tb:.0f} s")
+        rep.streams["thorough_passes"] = passes
     # 4. something broke → search for a concrete failing input on the real code
     if (lean["failures"] or rep.broken) and not rep.violations and hasattr(mod, "search"):
         mod.search(rep)
